@@ -1097,6 +1097,24 @@ class PyExec(ModelExec):
         def islice(a, k):
             return list(itertools.islice(it(a[0]), *a[1:]))
 
+        def filterfalse(a, k):
+            return [x for x in it(a[1]) if not (self.truth(x) if a[0] is None else self.truth(ap(a[0], [x], {})))]
+
+        def takewhile(a, k):
+            out = []
+            for x in it(a[1]):
+                if not self.truth(ap(a[0], [x], {})):
+                    break
+                out.append(x)
+            return out
+
+        def dropwhile(a, k):
+            items = list(it(a[1]))
+            n = 0
+            while n < len(items) and self.truth(ap(a[0], [items[n]], {})):
+                n += 1
+            return items[n:]
+
         def repeat(a, k):
             n = a[1] if len(a) > 1 else k.get("times")
             if n is None:
@@ -1277,7 +1295,7 @@ class PyExec(ModelExec):
             "attrs.fields_dict": lambda a, k: {f.attrs["name"]: f for f in declared_fields(a, k)}, "attr.fields_dict": lambda a, k: {f.attrs["name"]: f for f in declared_fields(a, k)},
             "re.compile": compile_, "re.match": strings_only(_re.match, wrap_match), "re.search": strings_only(_re.search, wrap_match), "re.fullmatch": strings_only(_re.fullmatch, wrap_match),
             "itertools.product": product, "itertools.chain": chain, "itertools.chain.from_iterable": from_iterable, "itertools.zip_longest": zip_longest,
-            "itertools.starmap": starmap, "itertools.islice": islice, "itertools.repeat": repeat, "itertools.accumulate": accumulate,
+            "itertools.starmap": starmap, "itertools.islice": islice, "itertools.filterfalse": filterfalse, "itertools.takewhile": takewhile, "itertools.dropwhile": dropwhile, "itertools.repeat": repeat, "itertools.accumulate": accumulate,
             "itertools.combinations": lambda a, k: [tuple(c) for c in itertools.combinations(it(a[0]), a[1])],
             "itertools.permutations": lambda a, k: [tuple(c) for c in itertools.permutations(it(a[0]), *a[1:])],
             "itertools.combinations_with_replacement": lambda a, k: [tuple(c) for c in itertools.combinations_with_replacement(it(a[0]), a[1])],
